@@ -1,0 +1,7 @@
+//go:build !verif
+
+package highlight
+
+// verifTrace is the trace hook of the verification build (-tags verif, see
+// trace_verif.go). In the normal build it is this empty stub.
+func verifTrace(label string, args ...interface{}) {}
